@@ -183,6 +183,15 @@ def mk_pre(kind, pos_names=(), kw_names=()):
     elif kind == "kwstar":
         def __attrs_pre_init__(self, **kwargs):
             REC.cb(("pre", [], list(kwargs.items())))
+    elif kind == "named":
+        # exactly the initializer's own parameters, by name
+        params = ", ".join(list(pos_names) + (["*"] + list(kw_names) if kw_names else []))
+        src = ("def __attrs_pre_init__(self%s):\n    REC.cb((\"pre\", [%s], [%s]))\n"
+               % (", " + params if params else "", ", ".join(pos_names),
+                  ", ".join("(%r, %s)" % (n, n) for n in kw_names)))
+        ns = {"REC": REC}
+        exec(src, ns)
+        return ns["__attrs_pre_init__"]
     else:
         raise ValueError(kind)
     return __attrs_pre_init__
@@ -232,7 +241,10 @@ def gen_class_spec(rng, uid, base=None, hooks_ok=True):
     base_frozen = base is not None and base.frozen
     if base is not None and base.is_exc_base:
         s["exc"] = False
-    s["pre"] = rng.choice([None, None, None, "self", "star"])
+    s["pre"] = rng.choice([None, None, None, "self", "star", "named"])
+    if s["pre"] is None and base is not None and base.has_hook("pre") == "named":
+        # an inherited hook with named parameters only fits the class it was written for
+        s["pre"] = rng.choice(["self", "star", "named"])
     s["post"] = rng.random() < 0.3
     r = rng.random()
     s["on_setattr"] = None
@@ -338,7 +350,16 @@ class ClassUnderTest:
                     anns[f["name"]] = Ann("t_" + f["uid"]) if f["type"] else int
         if anns:
             body["__annotations__"] = anns
-        if s["pre"]:
+        if s["pre"] == "named":
+            if "_named_sig" not in s:
+                # build once without the hook to learn the initializer's parameters
+                s["pre"] = None
+                probe = ClassUnderTest(s)
+                s["pre"] = "named"
+                s["_named_sig"] = signature_of(probe.cls) if probe.cls is not None else []
+            sg = s["_named_sig"]
+            body["__attrs_pre_init__"] = mk_pre("named", [n for n, k, _ in sg if not k], [n for n, k, _ in sg if k])
+        elif s["pre"]:
             body["__attrs_pre_init__"] = mk_pre(s["pre"])
         if s["post"]:
             body["__attrs_post_init__"] = post_init
@@ -399,6 +420,18 @@ class ClassUnderTest:
                 return s[which]
             s = s["base"].spec if s["base"] is not None else None
         return None
+
+    def pre_init_accepts_arguments(self):
+        """Does the resolved __attrs_pre_init__ accept anything besides self?  (A property-level fact
+        about the user's hook, computed from how the harness wrote it.)"""
+        s = self.spec
+        while s is not None:
+            if s["pre"]:
+                if s["pre"] == "named":
+                    return bool(s.get("_named_sig"))
+                return s["pre"] in ("star", "kwstar")
+            s = s["base"].spec if s["base"] is not None else None
+        return False
 
     def builder_on_setattr(self):
         """What the class builder is handed (mirrors the documented define default)."""
@@ -488,7 +521,7 @@ def enc_spec(cut):
     is_exc = issubclass(cls, BaseException)
     return ("(Build_cls_spec %s %s %s %s %s %s %s %s %s %s %s)"
             % (lst(enc_attribute(a, fh) for a in fl), b(cut.frozen), b(s["slots"]), b(s["cache_hash"]),
-               b(is_exc), b(bool(pre)), b(pre in ("star", "kwstar")), b(bool(cut.has_hook("post"))),
+               b(is_exc), b(bool(pre)), b(cut.pre_init_accepts_arguments()), b(bool(cut.has_hook("post"))),
                cut.builder_on_setattr(), lst(q(n) for n in mro_slots(cls)), b(has_dict)))
 
 
